@@ -49,6 +49,12 @@ def method_tasks(prop):
             for kind in ("zero", "add", "iadd", "mul"):
                 out.append(("method", K, kind))
                 out.append(("method", K, kind, "reloaded"))
+    if prop in ("C01", "C10", "C08"):
+        # the content type of a sparse container built by ed / fromJson (no template to derive it from) must survive zero, +
+        # and *: later merges check it (C10) and associativity of + on reloaded partial results depends on it (C01)
+        for K in ("SparselyBin", "Categorize"):
+            for kind in {"C01": ("zero", "add"), "C10": ("add", "iadd"), "C08": ("mul",)}[prop]:
+                out.append(("method", K, kind, "reloaded"))
     if prop == "C04":
         # "the reloaded container is interchangeable with the original under +, *, zero(), copy()":
         # the same interface clauses on pre-states built the way ed / fromJsonFragment build them
